@@ -287,7 +287,8 @@ func H_C01_tokens() {
 
 // H_C01_skeletons: fixed expression shapes with symbolic operator slots (every ordered
 // operator pair / triple), symbolic integer variables.
-func H_C01_skeletons() {
+// c01SkeletonTokens builds the tokens of skeleton SKEL (operator slots symbolic).
+func c01SkeletonTokens(skel int) []*parsers.ExpressionToken {
 	op := func(tag string) int {
 		t := vInt(tag)
 		vAssume(parsers.VerifBinaryOperator(t))
@@ -295,7 +296,7 @@ func H_C01_skeletons() {
 	}
 	V, LB, RB, LS, RS, CM := parsers.Variable, parsers.LeftBrace, parsers.RightBrace, parsers.LeftSquareBrace, parsers.RightSquareBrace, parsers.Comma
 	var types []int
-	switch vParam("SKEL") {
+	switch skel {
 	case 0:
 		types = []int{V, op("o1"), V, op("o2"), V}
 	case 1:
@@ -323,6 +324,12 @@ func H_C01_skeletons() {
 	for i, t := range types {
 		toks[i] = parsers.VerifToken(t, i, nil)
 	}
+	return toks
+}
+
+func H_C01_skeletons() {
+	toks := c01SkeletonTokens(vParam("SKEL"))
+	types := toks
 	tree := parsers.VerifReference(toks)
 	calc := NewExpressionCalculator()
 	var err error
